@@ -94,6 +94,7 @@ Plan capacity_generate(uint64_t base, const std::string &prop, uint64_t index, i
         p.faults.push_back("shape:deep_write");
     } else if (ro.chance(1, 2)) {
         GenKnobs k; k.max_nodes = 1 + (int)rd.below(14); k.alphabet = (int)rd.below(3); k.long_strings = rd.chance(1, 8) ? 1 + (int)rd.below(2) : 0;
+        { Rng rl = rd.fork("layout"); if (rl.chance(1, 4)) pick_name_family(rl, k); }
         Node t = gen_tree(rd, k, rd.chance(1, 4));
         tree_to_ops(t, p.ops, ro, true);
         p.note = "well-formed: " + tree_text(t);
